@@ -49,7 +49,9 @@ structure StatRec where
   wchan : Nat
   nswap : Nat
   cnswap : Nat
-  exitSignal : Nat
+  /-- printed with `%d`: −1 for every thread other than the group leader (a CLONE_THREAD task notifies
+      nobody on exit), as seen in the live task/<tid>/stat records -/
+  exitSignal : Int
   processor : Nat
   rtPriority : Nat
   policy : Nat
@@ -73,7 +75,7 @@ def statTokens (r : StatRec) : List Bytes :=
    renderDec r.rss, renderDec r.rsslim, renderDec r.startcode, renderDec r.endcode,
    renderDec r.startstack, renderDec r.kstkesp, renderDec r.kstkeip, renderDec r.signal,
    renderDec r.blocked, renderDec r.sigignore, renderDec r.sigcatch, renderDec r.wchan,
-   renderDec r.nswap, renderDec r.cnswap, renderDec r.exitSignal, renderDec r.processor,
+   renderDec r.nswap, renderDec r.cnswap, renderInt r.exitSignal, renderDec r.processor,
    renderDec r.rtPriority, renderDec r.policy]
   ++ (match r.tail with
       | none => []
